@@ -152,3 +152,38 @@ Proof.
 Qed.
 
 End AgreeSet.
+
+(* ---------- non-vacuity, and the composition on concrete inputs ---------- *)
+(* record "a://h:80/p?q#f" (qx_u of C06_Quirks.v), host functions qx_hp / qx_hd.  Each argument meets the
+   hypotheses of its theorem, the call succeeds, and Parser::parse_url on the old serialization with the raw
+   argument text spliced in returns THE SAME RECORD as the setter (all ten fields) *)
+From Coq Require Import String.
+From RU Require Import Proofs.C02_Reach.
+Definition same_as_parse (r : option url) (spliced : string) : bool :=
+  match r with
+  | Some u' => match parse_url true qx_hp qx_hp qx_hd None None (B spliced) with
+               | POk u'' => url_eqb u'' u'
+               | _ => false
+               end
+  | None => false
+  end.
+Definition ok_of (r : option (url * status)) : option url :=
+  match r with Some (u', SOk) => Some u' | _ => None end.
+
+Example agree_inhabited :
+  (* arguments: "u s", "p:w", "xy", 81, "/a b/../c", "k v", "f g" *)
+  forallb (fun c => plainc false c && negb (c =? 58)) (B "u s") = true
+  /\ forallb (plainc false) (B "p:w") = true
+  /\ forallb (hostc false) (B "xy") = true /\ st_is_file (stype qx_u) = false /\ st_is_special (stype qx_u) = false
+  /\ forallb no_qh (B "/a b/../c") = true /\ forallb no_h (B "k v") = true
+  /\ username true qx_u = Some [] /\ has_authority_b qx_u = true
+  /\ same_as_parse (ok_of (set_username true qx_u (B "u s"))) "a://u s@h:80/p?q#f" = true
+  /\ same_as_parse (ok_of (set_password true qx_u (Some (B "p:w")))) "a://:p:w@h:80/p?q#f" = true
+  /\ same_as_parse (ok_of (set_host true qx_hp qx_hp qx_hd qx_u (Some (B "xy")))) "a://xy:80/p?q#f" = true
+  /\ same_as_parse (ok_of (set_port true qx_u (Some 81))) "a://h:81/p?q#f" = true
+  /\ same_as_parse (set_path true qx_u (B "/a b/../c")) "a://h:80/a b/../c?q#f" = true
+  /\ same_as_parse (set_query true qx_u (Some (B "k v"))) "a://h:80/p?k v#f" = true
+  /\ same_as_parse (set_fragment true qx_u (Some (B "f g"))) "a://h:80/p?q#f g" = true
+  /\ (exists u', set_username true qx_u (B "u s") = Some (u', SOk) /\ ser u' = B "a://u%20s@h:80/p?q#f")
+  /\ (exists u', set_path true qx_u (B "/a b/../c") = Some u' /\ ser u' = B "a://h:80/c?q#f").
+Proof. vm_compute. repeat split; eexists; split; reflexivity. Qed.
